@@ -172,8 +172,12 @@ def run(ck: Check) -> int:
             ck.violation(f'expand_macro::{clause}', msg, case=case, replay=REPLAY, wclass=f'{wclass} [{name if len(name) <= 8 else name[:8] + "…"}]')
     ck.note(f'{n_regex_names} names accepted by the registered regexes up to the bounds ({n_invalid} of them are not macros of the documented '
             f'grammar), {n_valid} macro names checked, {n_runs} runs of the reference interpreter on symbolic stacks')
+    from props import C19_P
+    C19_P.run_P(ck, mac)     # deductive part: unbounded families (induction step over the path, symbolic depth, regex dispatch)
     ck.exhaustive = True
     return ck.finish('other',
+                     'P (props/C19_P.py, names of every length): induction step of the C/SET_C/MAP_C[AD]+R handlers over a ghost path against the documented '
+                     'recursive rules, DII+P / DUU+P with a symbolic number of letters, regex dispatch obligations on the live table.  '
                      'S/R (bounded in the name length, all input stacks of matching shape by parametricity): every name the registered regexes accept '
                      'up to the bound is expanded by the real expand_macro; the expansion is executed by the reference interpreter on opaque tokens and '
                      'compared with the documented meaning; ill-formed names and wrong arities must be refused; PAIR/UNPAIR tree macros are mutual inverses')
